@@ -483,6 +483,29 @@ func (cl *cluster) respond(c *simConn, resp []byte, extraDelay time.Duration) {
 	cl.pump(c)
 }
 
+// respondHeld delivers a response that was held back (join/sync): the connection was free meanwhile.
+func (cl *cluster) respondHeld(c *simConn, resp []byte) {
+	lat := cl.k.latency()
+	at := time.Now().Add(lat)
+	if at.Before(c.lastDeliv) {
+		at = c.lastDeliv
+	}
+	c.lastDeliv = at
+	cl.k.after(time.Until(at), func() {
+		if c.isDead() {
+			return
+		}
+		c.mu.Lock()
+		c.answered++
+		c.mu.Unlock()
+		c.deliver(resp)
+	})
+	if c.busy {
+		c.busy = false
+		cl.pump(c)
+	}
+}
+
 // done: the request needs no response (acks=0); process the next one.
 func (cl *cluster) done(c *simConn) {
 	c.busy = false
